@@ -25,6 +25,7 @@ type Options struct {
 	VerifyOnly bool `json:"verify_only,omitempty"`
 	TxManager  bool `json:"tx_manager,omitempty"`
 	Manager    bool `json:"node_manager,omitempty"` // register the node with a NodeManager
+	Preload    bool `json:"preload_headers,omitempty"` // the repository already holds blocks 1 and 2 (learned from another peer)
 }
 
 // SpyHeaders wraps the real header repository and records the calls a peer can cause.
@@ -181,6 +182,14 @@ func start(opt Options, with *Session) *Session {
 		store := vstore.New()
 		repo := headers.NewRepository(headers.DefaultConfig(), store)
 		repo.InitializeWithGenesis()
+		if opt.Preload {
+			for _, h := range []*wire.BlockHeader{Block1, Block2} {
+				hc := h.Copy()
+				if err := repo.ProcessHeader(s.Ctx, &hc); err != nil {
+					panic("preload: " + err.Error())
+				}
+			}
+		}
 		s.Headers = &SpyHeaders{Repository: repo}
 		s.Peers = &SpyPeers{StoragePeerRepository: bitcoin_reader.NewPeerRepository(store, "")}
 	}
